@@ -18,7 +18,7 @@ CONFIG = {
                    "name is identical in both worlds (it is part of the manifest file names) - patterns matching the root's "
                    "own name are covered by C02/C12."),
     "technique": "deterministic simulation: twin worlds differing only in mount point / root spelling / enumeration schedule, byte comparison of histories",
-    "quick": {"runs": 720, "budget_s": 90},
+    "quick": {"runs": 1000, "budget_s": 120},
     "thorough": {"runs": 5000, "budget_s": 540},
     "rule": ("one run = one op list in two worlds + verify on a relocated copy; one evaluation = one compared pair of commands. "
              "Distinct = (mount class, spelling, enum profile, #nested histories, patterns used, -sf used); non-trivial = "
